@@ -227,6 +227,15 @@ class _CtxMixin:
 
 
 TCtxI = make_type('TCtxI', cache='default', max_parallel=None, bases=(_CtxMixin,))
+class CacheHolder:
+    """A cache class defined inside another class (its __qualname__ is not its __name__)."""
+    class Nested(JsonCache):
+        KEY_PREFIX = 'nested__'
+
+
+TNest = make_type('TNest', cache=CacheHolder.Nested(), max_parallel=None)
+
+
 def _filter_fails(self, context):
     # a task whose failure happens while its context is being filtered
     if self.beh == 'raise':
